@@ -25,6 +25,18 @@ with `SInt k` / `SFlt q` elements), which the C05_typed_* theorems tie to the sa
 float32 uncertainties are computed by numpy in single precision (that is the dtype the user
 chose): tolerance 4e-6 instead of 1e-9 for those cases only.
 
+Container stage / shape of the inputs (RealModel/LikelihoodsShaped.v, Properties/C05Shaped.v): the
+base class squeezes array(y_data) and array(uncertainties) independently and only rejects what still
+has more than one dimension afterwards, so a row (1,n) sliced out of an image, a column (n,1), a
+keepdims result (1,1,n), a nested list [[...]], a 0-d array ... are valid inputs, and
+GaussianLikelihood counts its data points (n_data, for the -0.5*log(2*pi)*n_data part of the
+normalisation) on the squeezed array.  A third family of cases hands the data and the uncertainties
+over in every such container (stratified: every class meets the row-like ones with n > 1 in every
+run); the shape numpy gives the container and its row-major elements go into the goals
+`gauss_call (gauss_init_nd (Build_ndarr [1;n] [...]) (Build_ndarr [n;1] [...])) fs`, together with
+one goal per case that the model's constructor checks accept the input (`base_accepts`, `nd_wf`).
+The C05_shaped_* theorems tie that model to the same textbook sum.
+
 Failing-input search: for a value goal that does not check, the *textbook* density sum
 (sum_logpdf <named pdf>, not the code-shaped formula) is evaluated by interval against
 the implementation's number; for a gradient goal, central differences of the
@@ -57,9 +69,17 @@ TYPED_THEOREMS = ["C05_typed_gauss_is_sum_logpdf", "C05_typed_cauchy_is_sum_logp
                   "C05_samedtype_reciprocal_of_int_is_zero", "C05_samedtype_reciprocal_gauss_refuted",
                   "C05_samedtype_reciprocal_cauchy_refuted"]
 
+SHAPED_THEOREMS = ["C05_shaped_count_is_number_of_data",
+                   "C05_shaped_gauss_is_sum_logpdf", "C05_shaped_cauchy_is_sum_logpdf",
+                   "C05_shaped_logistic_is_sum_logpdf",
+                   "C05_shaped_gauss_gradient_is_derivative", "C05_shaped_cauchy_gradient_is_derivative",
+                   "C05_shaped_logistic_gradient_is_derivative", "C05_shaped_container_independent",
+                   "C05_leading_count_ok_when_first_axis_is_long", "C05_leading_count_refuted_on_rows",
+                   "C05_leading_count_gauss_refuted"]
+
 PREAMBLE = """From Coq Require Import Reals List ZArith.
 From Interval Require Import Tactic.
-From IT Require Import RealModel.Likelihoods RealModel.LikelihoodsTyped.
+From IT Require Import RealModel.Likelihoods RealModel.LikelihoodsTyped RealModel.LikelihoodsShaped.
 Import ListNotations.
 Open Scope R_scope.
 Ltac c05_unfold := cbv [gauss_loglike gauss_normalisation gauss_z gauss_gradient gauss_dLdF
@@ -69,6 +89,9 @@ Ltac c05_unfold := cbv [gauss_loglike gauss_normalisation gauss_z gauss_gradient
   gauss_call gauss_grad gauss_init gauss_init_with gs_y gs_inv_sigma gs_inv_sigma_sqr gs_norm
   cauchy_call cauchy_grad cauchy_init cauchy_init_with cs_y cs_inv_gamma cs_norm
   logistic_call logistic_grad logistic_init ls_y ls_inv_scale ls_norm sval true_recip
+  gauss_init_nd gauss_init_nd_with cauchy_init_nd logistic_init_nd count_size
+  nd_wf base_accepts nd_size nd_ndim nd_squeeze nd_shape nd_data shape_size squeeze_shape
+  filter negb andb Nat.eqb Nat.leb Nat.mul Nat.add
   sumR map2 map3 map fold_right nth length INR].
 """
 UNFOLD = "c05_unfold."
@@ -87,8 +110,75 @@ FLOAT_KINDS = ["float64", "pylist_float", "mixed_list", "float32", "longdouble",
 SCALAR_KINDS = {"pyscalar_int": "int", "pyscalar_float": "float"}
 
 
+# containers of the third family: kind = "<container>/<element type>".  The shape is NOT tabulated
+# here: it is read off numpy.array(<the object>) when the goals are written (shape_and_elements).
+ROW_CONTAINERS = ["row", "keepdims3", "row4", "mid3", "image_row", "fortran_row", "transposed_col",
+                  "atleast_2d", "nested_row", "tuple_row"]          # leading axis 1, the data along a later one
+OTHER_CONTAINERS = ["flat", "column", "col3", "image_col", "nested_col"]
+SINGLE_CONTAINERS = ["zero_d", "one_one", "pyscalar"]               # n = 1 only
+PY_CONTAINERS = ("nested_row", "tuple_row", "nested_col", "pyscalar")
+SHAPED_INT = ("int64", "uint8", "pyint")
+
+
+def is_shaped(kind):
+    return kind is not None and "/" in kind
+
+
 def family(kind):
+    if is_shaped(kind):
+        return "int" if kind.split("/")[1] in SHAPED_INT else "float"
     return "int" if kind in INT_KINDS or kind == "pyscalar_int" else "float"
+
+
+def materialise_shaped(values, kind):
+    cont, et = kind.split("/")
+    n = len(values)
+    vals = [int(v) for v in values] if et in SHAPED_INT else [float(v) for v in values]
+    if cont == "nested_row":
+        return [vals]
+    if cont == "tuple_row":
+        return (tuple(vals),)
+    if cont == "nested_col":
+        return [[v] for v in vals]
+    if cont == "pyscalar":
+        return vals[0]
+    a = np.array(vals, dtype={"pyint": "int64", "pyfloat": "float64"}.get(et, et))
+    if cont == "flat":
+        return a
+    if cont == "row":
+        return a.reshape(1, n)
+    if cont == "column":
+        return a.reshape(n, 1)
+    if cont == "keepdims3":                 # e.g. a reduction over two axes with keepdims=True
+        return a.reshape(1, 1, n)
+    if cont == "row4":
+        return a.reshape(1, 1, 1, n)
+    if cont == "mid3":
+        return a.reshape(1, n, 1)
+    if cont == "col3":
+        return a.reshape(n, 1, 1)
+    if cont == "image_row":                 # one row of an image, kept two-dimensional
+        return np.vstack([a[::-1], a, a])[1:2, :]
+    if cont == "image_col":                 # one column of an image: a non-contiguous (n,1) view
+        return np.column_stack([a[::-1], a, a])[:, 1:2]
+    if cont == "fortran_row":
+        return np.asfortranarray(a.reshape(1, n))
+    if cont == "transposed_col":
+        return a.reshape(n, 1).T
+    if cont == "atleast_2d":
+        return np.atleast_2d(a)
+    if cont == "zero_d":
+        return a.reshape(())
+    if cont == "one_one":
+        return a.reshape(1, 1)
+    raise ValueError(kind)
+
+
+def shape_and_elements(values, kind):
+    """What numpy.array(obj) -- the first thing the constructor does -- makes of the object that is
+    handed over: (shape, elements in row-major order)."""
+    a = np.array(materialise(values, kind))
+    return [int(d) for d in a.shape], [float(v) for v in a.ravel(order="C")]
 
 
 def int_range(kind):
@@ -100,6 +190,8 @@ def int_range(kind):
 
 def materialise(values, kind):
     """The object passed to the constructor.  `values` are the exact numbers (floats)."""
+    if is_shaped(kind):
+        return materialise_shaped(values, kind)
     if kind == "float64":
         return np.array(values, dtype=float)
     if kind == "pylist_int":
@@ -302,6 +394,67 @@ def gen_typed_case(r, k):
             "smode": smode, "rmode": rmode, "y_kind": y_kind, "s_kind": s_kind}
 
 
+def shaped_schedule(r, n_shaped):
+    """Which container the DATA of shaped case k arrives in: per class a shuffled cycle over all the
+    containers in which the row-like ones come first, so that every class meets every row-like
+    container with n > 1 as early as possible (12 cases per class in the quick tier: all 10 row-like
+    ones and 2 of the others)."""
+    per_class = []
+    for _ in range(3):
+        rows, others = list(ROW_CONTAINERS), list(OTHER_CONTAINERS)
+        r.shuffle(rows)
+        r.shuffle(others)
+        per_class.append(rows + others)
+    return [per_class[k % 3][(k // 3) % len(per_class[k % 3])] for k in range(n_shaped)]
+
+
+def gen_shaped_case(r, k, y_cont):
+    """A case whose data arrive in the container `y_cont` (a shape numpy squeezes to 1-D / 0-D) and
+    whose uncertainties arrive in an independently drawn one."""
+    cls = ["gauss", "cauchy", "logistic"][k % 3]
+    n = r.choice([2, 2, 3, 3, 4, 5, 6, 1])
+    p = r.choice([1, 2])
+    kind = r.choice(["linear", "quadratic"])
+    if n == 1 and r.random() < 0.5:
+        y_cont = r.choice(SINGLE_CONTAINERS)
+    s_cont = r.choice(ROW_CONTAINERS + OTHER_CONTAINERS + ["flat"] * 5 + (SINGLE_CONTAINERS * 2 if n == 1 else []))
+    # ---- uncertainties
+    if r.random() < 0.4:
+        s_et = "pyint" if s_cont in PY_CONTAINERS else r.choice(["int64", "uint8"])
+        smode = r.choice(["int small", "int mid"])
+        sigma = [float(r.randint(1, 9 if smode == "int small" else 120)) for _ in range(n)]
+    else:
+        s_et = "pyfloat" if s_cont in PY_CONTAINERS else "float64"
+        smode = "float"
+        sigma = [log_uniform(r, -4, 4) for _ in range(n)]
+    theta = [r.choice([-1, 1]) * log_uniform(r, -2, 1) for _ in range(p)]
+    m = {"kind": kind,
+         "a": [r.uniform(-5, 5) for _ in range(n)],
+         "B": [[r.uniform(-3, 3) for _ in range(p)] for _ in range(n)]}
+    if kind == "quadratic":
+        m["Cq"] = [[r.uniform(-2, 2) for _ in range(p)] for _ in range(n)]
+    f = forward(m, theta)
+    rmode = r.choice(["small", "small", "moderate", "huge", "mixed"])
+    y = []
+    for i in range(n):
+        md = rmode if rmode != "mixed" else r.choice(["small", "moderate", "huge"])
+        if md == "small":
+            z = r.gauss(0, 1.5)
+        elif md == "moderate":
+            z = r.choice([-1, 1]) * r.uniform(3, 40)
+        else:
+            z = r.choice([-1, 1]) * r.uniform(100, 700)
+        y.append(float(f[i] + z * sigma[i]))
+    # ---- data
+    if r.random() < 0.3:
+        y = [float(round(v)) for v in y]
+        y_et = "pyint" if y_cont in PY_CONTAINERS else "int64"
+    else:
+        y_et = "pyfloat" if y_cont in PY_CONTAINERS else "float64"
+    return {"cls": cls, "y": y, "sigma": sigma, "theta": [float(t) for t in theta], "model": m,
+            "smode": smode, "rmode": rmode, "y_kind": f"{y_cont}/{y_et}", "s_kind": f"{s_cont}/{s_et}"}
+
+
 # ---------------------------------------------------------------- tolerances (magnitude of the summed terms)
 def magnitudes(case):
     """(magnitude of the terms of the value, per-parameter magnitude of the terms of the
@@ -366,6 +519,35 @@ def typed_goals_for(k, case, out):
                                            tol_for(mv, out["value"], case)), None)]
     for j in range(len(case["theta"])):
         gs.append((f"t{k}_grad{j}", I.goal_abs_close(f"{c}_grad {st} {fs} {Jt} {j}%nat", out["grad"][j],
+                                                     tol_for(mg[j], out["grad"][j], case)), None))
+    return gs
+
+
+def ndarr(values, kind):
+    """Coq `ndarr` of the object that is handed over: the shape numpy gives it and its elements in
+    row-major order (they must be the case's numbers: a container never changes them)."""
+    shape, elems = shape_and_elements(values, kind)
+    if elems != [float(v) for v in values]:
+        raise AssertionError(f"container {kind} does not hold the case's numbers in order")
+    return f"(Build_ndarr {C.clist([str(d) for d in shape])}%nat {slist(values, kind)})", shape
+
+
+def shaped_goals_for(k, case, out):
+    """Goals of a case whose inputs arrive in a (possibly) multi-dimensional container: through the
+    container-stage model.  The first goal is that the model's constructor accepts the input (the
+    implementation did: it returned numbers)."""
+    _, _, fs, Jt = coq_inputs(case)
+    ya, _ = ndarr(case["y"], case["y_kind"])
+    sa, _ = ndarr(case["sigma"], case["s_kind"])
+    c = case["cls"]
+    mv, mg = magnitudes(case)
+    st = f"({c}_init_nd {ya} {sa})"
+    gs = [(f"s{k}_accepted", f"nd_wf {ya} /\\ nd_wf {sa} /\\ base_accepts {ya} {sa} = true",
+           "(repeat split; reflexivity)"),
+          (f"s{k}_value", I.goal_abs_close(f"{c}_call {st} {fs}", out["value"],
+                                           tol_for(mv, out["value"], case)), None)]
+    for j in range(len(case["theta"])):
+        gs.append((f"s{k}_grad{j}", I.goal_abs_close(f"{c}_grad {st} {fs} {Jt} {j}%nat", out["grad"][j],
                                                      tol_for(mg[j], out["grad"][j], case)), None))
     return gs
 
@@ -489,6 +671,9 @@ def run(rep: C.Report, tier: str) -> int:
     rt = C.rng_for(PROP, "typed")
     n_cases = 90 if tier == "quick" else 900
     n_typed = 48 if tier == "quick" else 480
+    rs = C.rng_for(PROP, "shaped")
+    n_shaped = 36 if tier == "quick" else 360
+    schedule = shaped_schedule(rs, n_shaped)
     C.clean_gen(PROP)
     C.prove_and_audit(rep, PROP, THEOREMS)
     try:      # supplementary theorems (the Gaussian pdf is normalised)
@@ -508,10 +693,23 @@ def run(rep: C.Report, tier: str) -> int:
         rep.violation("C05/proof", f"proof obligation no longer checks: {_e.what}",
                       {"theorem_or_correspondence": _e.what, "log": _e.log[-1000:]}, False)
 
+    try:      # container stage: the shape in which the data / uncertainties are handed over does not matter
+        _a = C.coq_audit("C05_shaped", SHAPED_THEOREMS, "IT.Properties.C05Shaped")
+        rep.obligation(True, len(SHAPED_THEOREMS))
+        rep.coverage["shaped_audit"] = _a
+    except C.ProofFailure as _e:
+        rep.obligation(False, len(SHAPED_THEOREMS))
+        rep.violation("C05/proof", f"proof obligation no longer checks: {_e.what}",
+                      {"theorem_or_correspondence": _e.what, "log": _e.log[-1000:]}, False)
+
     cases, outs, goals, owner = [], [], [], {}
-    for k in range(n_cases + n_typed):
-        typed = k >= n_cases
-        case = gen_typed_case(rt, k) if typed else gen_case(r, k)
+    for k in range(n_cases + n_typed + n_shaped):
+        typed = n_cases <= k < n_cases + n_typed
+        shaped = k >= n_cases + n_typed
+        if shaped:
+            case = gen_shaped_case(rs, k - n_cases - n_typed, schedule[k - n_cases - n_typed])
+        else:
+            case = gen_typed_case(rt, k) if typed else gen_case(r, k)
         out = run_impl(case)
         cases.append(case)
         outs.append(out)
@@ -527,7 +725,19 @@ def run(rep: C.Report, tier: str) -> int:
             rep.count("integer uncertainties, some > 1")
         rep.case((case["cls"], case["y"], case["sigma"], case["theta"], case["model"],
                   case.get("y_kind"), case.get("s_kind")), nontrivial=True)
-        if k < 3 or n_cases <= k < n_cases + 3:
+        if shaped:
+            y_shape = shape_and_elements(case["y"], case["y_kind"])[0]
+            s_shape = shape_and_elements(case["sigma"], case["s_kind"])[0]
+            rep.count("data container=" + case["y_kind"].split("/")[0])
+            rep.count("uncertainties container=" + case["s_kind"].split("/")[0])
+            rep.count("data shape ndim=%d" % len(y_shape))
+            if len(case["y"]) > 1 and y_shape[0] == 1:
+                rep.count(f"row-like data (leading axis 1) with n > 1, class={case['cls']}")
+            if len(case["y"]) > 1 and s_shape and s_shape[0] == 1:
+                rep.count("row-like uncertainties (leading axis 1) with n > 1")
+            if y_shape != s_shape:
+                rep.count("data and uncertainties in containers of different shape")
+        if k < 3 or n_cases <= k < n_cases + 3 or n_cases + n_typed <= k < n_cases + n_typed + 3:
             rep.sample({"class": case["cls"], "y": case["y"], "sigma": case["sigma"], "theta": case["theta"],
                         "forward_model": case["model"]["kind"], "data_given_as": case.get("y_kind", "float64"),
                         "uncertainties_given_as": case.get("s_kind", "float64"), "impl": out})
@@ -547,7 +757,8 @@ def run(rep: C.Report, tier: str) -> int:
                 rep.count("branch=logistic exp(-z) overflows")
             if (z > 709.8).any():
                 rep.count("branch=logistic exp(z) overflows in logaddexp")
-        for g in (typed_goals_for(k, case, out) if typed else goals_for(k, case, out)):
+        for g in (shaped_goals_for(k, case, out) if shaped else
+                  typed_goals_for(k, case, out) if typed else goals_for(k, case, out)):
             goals.append(g)
             owner[g[0]] = k
 
@@ -589,6 +800,13 @@ def run(rep: C.Report, tier: str) -> int:
             continue
         seen.add((k, group))
         case, out = cases[k], outs[k]
+        if what == "accepted":
+            rep.violation("C05/correspondence",
+                          f"the implementation accepted an input that the model's constructor checks reject "
+                          f"(goal {gid}){given(case)}",
+                          {"theorem_or_correspondence": f"RealModel.LikelihoodsShaped (base_accepts / nd_wf) vs "
+                           f"likelihoods.py, goal {gid}", "case": describe(case), "impl": out, "log": log[-400:]}, False)
+            continue
         if what in ("value", "cost"):
             if examine_value(k) is False:
                 continue
@@ -622,6 +840,9 @@ def run(rep: C.Report, tier: str) -> int:
         "an element of an integer-dtype input is modelled by its integer, of a float-dtype input by its exact "
         "rational; numpy's `1.0 / a`, `log(a)`, `a * float`, `a - float_array` are taken to be the real "
         "functions of that value (checked on every typed case by the goals themselves)",
+        "a container is modelled by the shape numpy.array() reports for it and its elements in row-major order "
+        "(read off numpy on every shaped case; the elements are asserted to be the case's numbers); squeeze() "
+        "keeps the elements and their order",
     ]
     return rep.finish(
         level="proof",
@@ -637,8 +858,14 @@ def run(rep: C.Report, tier: str) -> int:
              "them: 70% integer uncertainties (1..9, 1..120, 1..1e6; lists / tuples of Python ints, int8..int64, "
              "uint8..uint64, (n,1) int64, Python int when n = 1), 30% float ones (float64, float list, list mixing "
              "ints and floats, float32, longdouble, (n,1), (1,n), strided view, read-only, Python float when "
-             "n = 1), data 40% integers in a dtype that holds them / 60% the float variants; every case is "
-             "non-trivial; distinct = distinct (class, data, sigma, theta, model, representations)")
+             "n = 1), data 40% integers in a dtype that holds them / 60% the float variants; plus a third family "
+             "(36 quick / 360 thorough) whose data arrive in a container numpy squeezes to 1-D / 0-D -- per class a "
+             "shuffled cycle, row-like ones first: row (1,n), (1,1,n), (1,1,1,n), (1,n,1), img[k:k+1,:], Fortran-ordered "
+             "row, (n,1).T, atleast_2d, [[...]], ((...),); then flat, (n,1), (n,1,1), img[:,k:k+1], [[a],[b],...]; 0-d / "
+             "(1,1) / Python scalar for half of the n = 1 cases -- n from {2,2,3,3,4,5,6,1}, 1..2 parameters, the "
+             "uncertainties in an independently drawn container (flat 6/20), elements float64 / Python float (60-70%) or "
+             "int64 / uint8 / Python int; goals through the container-stage model with the shape numpy reports; every "
+             "case is non-trivial; distinct = distinct (class, data, sigma, theta, model, representations)")
 
 
 def replay(path):
